@@ -25,6 +25,7 @@ RULE = ("strings: (1) every concatenation of k<=3 (quick) / k<=4 (thorough) atom
         "long named-parameter lists). distinct = distinct input string; non-trivial = the "
         "lexer produced at least 2 tokens before the outcome")
 RULE += (" " + 'Also: unterminated-literal lane run in a watched child process (first, check-pointed); case-folding spellings of every keyword (U+0130, U+0131, U+017F, U+212A); deep prefix followed by end of input inside 8 kinds of open bracket.')
+RULE += (" " + 'Code-point sweep: every code point inside every quoted literal kind (4 frames, blocks bisected on failure) and single code points U+0000..U+30FF (thorough: BMP) between / next to tokens.')
 ASSUMPTIONS = ["step bound 40 x tokens + 100 counts function starts in odata_query/grammar.py "
                "plus tokens pulled (LR parsing is linear in the token count)",
                "wall-clock watchdogs only ever yield inconclusive"]
